@@ -186,4 +186,88 @@ example : (run { pause := 0, retain := 3 } 100 {} [(1, .send 1), (2, .send 2), (
     [.tx 1 1, .ret 1 1 true, .tx 2 2, .ret 2 2 true, .tx 3 3, .ret 3 3 true, .tx 4 4, .ret 4 4 true,
      .tx 5 3, .tx 5 4] := by decide
 
+/-! ### with a pause: the lost messages go out one per pause, in order, and nothing else -/
+
+/-- the pause / back-off timers fired one after the other, each at its due time -/
+def fireAll (cfg : Cfg) : Nat → St → St × List Obs
+  | 0, s => (s, [])
+  | fuel + 1, s =>
+    match s.heldUntil with
+    | some u =>
+      let r := stepL cfg s (.timer u)
+      let r' := fireAll cfg fuel r.1
+      (r'.1, r.2 ++ r'.2)
+    | none => (s, [])
+
+/-- the expected transmissions: message after message, one pause apart -/
+def paced (pause : Nat) : Nat → List Nat → List Obs
+  | _, [] => []
+  | t, m :: ms => .tx t m :: paced pause (t + pause) ms
+
+theorem grant_resend_last (cfg : Cfg) (hp : cfg.pause > 0) (m p t : Nat) (sb : Bool) (ret parked : List Nat) (ic : Bool) :
+    grant cfg (m + 2) (St.mk none [.resend p []] sb ret parked true false ic) t =
+      (St.mk (some (t + cfg.pause)) [] sb (pushRetain cfg.cap ret p) parked true false ic, [.tx t p]) := by
+  have hne : cfg.pause ≠ 0 := by omega
+  simp [grant, transmit, hp, hne]
+
+theorem grant_resend_more (cfg : Cfg) (hp : cfg.pause > 0) (m p q t : Nat) (more : List Nat) (sb : Bool)
+    (ret parked : List Nat) (ic : Bool) :
+    grant cfg (m + 2) (St.mk none [.resend p (q :: more)] sb ret parked true false ic) t =
+      (St.mk (some (t + cfg.pause)) [.resend q more] sb (pushRetain cfg.cap ret p) parked true false ic, [.tx t p]) := by
+  have hne : cfg.pause ≠ 0 := by omega
+  simp [grant, transmit, hp, hne]
+
+theorem timer_step_resend (cfg : Cfg) (hp : cfg.pause > 0) (p t : Nat) (more : List Nat) (sb : Bool)
+    (ret parked : List Nat) (ic : Bool) :
+    stepL cfg (St.mk (some t) [.resend p more] sb ret parked true false ic) (.timer t) =
+      (St.mk (some (t + cfg.pause)) (match more with | [] => [] | q :: ps => [.resend q ps]) sb
+        (pushRetain cfg.cap ret p) parked true false ic, [.tx t p]) := by
+  have hfuel : fuelOf (St.mk none [.resend p more] sb ret parked true false ic) = (4 * ret.length + 18) + 2 := by
+    simp [fuelOf]; omega
+  simp only [stepL, fire, Nat.le_refl, ↓reduceIte]
+  rw [hfuel]
+  cases more with
+  | nil => rw [grant_resend_last cfg hp]; simp [settle]
+  | cons q ps => rw [grant_resend_more cfg hp]; simp [settle]
+
+/-- **resend exactly what was lost, paced**: the resending goroutine is queued for the lock
+    (held until `t` by whatever went before); as the timers fire, exactly the lost messages leave
+    the client, in their original order, one post-send pause apart - and the lock ends up free -/
+theorem resend_paced (cfg : Cfg) (hp : cfg.pause > 0) :
+    ∀ (msgs : List Nat) (p t : Nat) (sb : Bool) (ret parked : List Nat) (ic : Bool) (fuel : Nat),
+      fuel ≥ msgs.length + 2 →
+      (fireAll cfg fuel (St.mk (some t) [.resend p msgs] sb ret parked true false ic)).2 =
+        paced cfg.pause t (p :: msgs) ∧
+      (fireAll cfg fuel (St.mk (some t) [.resend p msgs] sb ret parked true false ic)).1.heldUntil = none := by
+  intro msgs
+  induction msgs with
+  | nil =>
+    intro p t sb ret parked ic fuel hf
+    obtain ⟨n, rfl⟩ : ∃ n, fuel = n + 2 := ⟨fuel - 2, by simp at hf; omega⟩
+    rw [fireAll]
+    simp only [timer_step_resend cfg hp]
+    -- the last pause runs out: the lock is released, nobody is waiting
+    rw [fireAll]
+    have : stepL cfg (St.mk (some (t + cfg.pause)) [] sb (pushRetain cfg.cap ret p) parked true false ic)
+        (.timer (t + cfg.pause)) = (St.mk none [] sb (pushRetain cfg.cap ret p) parked true false ic, []) := by
+      have hfuel : fuelOf (St.mk none [] sb (pushRetain cfg.cap ret p) parked true false ic) =
+          (4 * (pushRetain cfg.cap ret p).length + 15) + 1 := by simp [fuelOf]; omega
+      simp only [stepL, fire, Nat.le_refl, ↓reduceIte]
+      rw [hfuel]
+      simp [grant, settle]
+    simp only [this]
+    cases n <;> simp [fireAll, paced]
+  | cons q more ih =>
+    intro p t sb ret parked ic fuel hf
+    obtain ⟨n, rfl⟩ : ∃ n, fuel = n + 1 := ⟨fuel - 1, by simp at hf; omega⟩
+    rw [fireAll]
+    simp only [timer_step_resend cfg hp]
+    have := ih q (t + cfg.pause) sb (pushRetain cfg.cap ret p) parked ic n (by simp at hf ⊢; omega)
+    refine ⟨?_, this.2⟩
+    rw [this.1]
+    rfl
+
+example : (fireAll { pause := 20, retain := 8 } 10 (St.mk (some 100) [.resend 7 [8, 9]] false [] [] true false false)).2 =
+    [.tx 100 7, .tx 120 8, .tx 140 9] := by decide
+
 end Props.C14
